@@ -1049,7 +1049,7 @@ impl BuiltInFunction {
                         list[idx]
                     };
                     let key_result = func_def.call(
-                        Value::Null,
+                        *func,
                         vec![item],
                         Rc::clone(&heap),
                         Rc::clone(&bindings),
@@ -1100,7 +1100,7 @@ impl BuiltInFunction {
                         list[idx]
                     };
                     let key_result = func_def.call(
-                        Value::Null,
+                        *func,
                         vec![item],
                         Rc::clone(&heap),
                         Rc::clone(&bindings),
@@ -1317,7 +1317,7 @@ impl BuiltInFunction {
                     };
 
                     let result = func_def.call(
-                        Value::Null,
+                        *func,
                         args,
                         Rc::clone(&heap),
                         Rc::clone(&bindings),
@@ -1358,7 +1358,7 @@ impl BuiltInFunction {
                     };
 
                     let result = func_def.call(
-                        Value::Null,
+                        *func,
                         args,
                         Rc::clone(&heap),
                         Rc::clone(&bindings),
@@ -1402,7 +1402,7 @@ impl BuiltInFunction {
                     };
 
                     accumulator = func_def.call(
-                        Value::Null,
+                        *func,
                         args,
                         Rc::clone(&heap),
                         Rc::clone(&bindings),
@@ -1441,7 +1441,7 @@ impl BuiltInFunction {
                     };
 
                     let result = func_def.call(
-                        Value::Null,
+                        *func,
                         args,
                         Rc::clone(&heap),
                         Rc::clone(&bindings),
@@ -1483,7 +1483,7 @@ impl BuiltInFunction {
                     };
 
                     let result = func_def.call(
-                        Value::Null,
+                        *func,
                         args,
                         Rc::clone(&heap),
                         Rc::clone(&bindings),
@@ -1512,7 +1512,7 @@ impl BuiltInFunction {
                     match func_def {
                         Some(fd) => {
                             let result_a = fd.call(
-                                Value::Null,
+                                *func,
                                 vec![*a],
                                 Rc::clone(&heap),
                                 Rc::clone(&bindings),
@@ -1520,7 +1520,7 @@ impl BuiltInFunction {
                                 source,
                             );
                             let result_b = fd.call(
-                                Value::Null,
+                                *func,
                                 vec![*b],
                                 Rc::clone(&heap),
                                 Rc::clone(&bindings),
